@@ -8,7 +8,7 @@ printed equal the delivered operands, and that Disassemble fails exactly when De
 the same error."""
 from lib import vlib, deccheck
 
-KINDS = {"listing bytes", "listing values", "listing has extra lines", "outcome differs"}
+KINDS = {"listing bytes", "listing values", "listing text", "listing has extra lines", "outcome differs"}
 
 
 def run(ctx):
@@ -28,4 +28,4 @@ def run(ctx):
     return vlib.finish(ctx, "model_checking", coverage, [
         "wording of the lines is not checked: byte column, line grouping and printed numbers are",
         "printed numbers are re-parsed with strconv.ParseFloat(.,32), which inverts %g of a float32",
-        "colour, selector, ADJ and repeat-count texts are not parsed (see DESIGN.md C11 limits)"])
+        "colour texts, selector/ADJ/repeat-count integers and arc flags are tokenised by regular expressions in the harness"])
